@@ -490,10 +490,12 @@ def _relabel_mutations_node(
 
     insert_position = edges_left[insert_index]
     remove_position = edges_right[remove_index]
-    sequence_length = remove_position[-1]
+    # the sweep stops at the right end of the last edge (edges need not span the genome)
+    sequence_length = remove_position[-1] if num_edges > 0 else 0.0
 
     output = np.full(num_mutations, tskit.NULL, dtype=np.int32)
-    nodes_map = np.full(num_nodes, tskit.NULL, dtype=np.int32)
+    # a node that is not in any tree so far (e.g. an isolated sample) keeps its id
+    nodes_map = np.arange(num_nodes, dtype=np.int32)
     a, b, m = 0, 0, 0
     left = 0.0
     while left < sequence_length:
@@ -515,9 +517,12 @@ def _relabel_mutations_node(
         left = right
 
         while m < num_mutations and mutations_position[m] < right:
-            assert nodes_map[mutations_node[m]] != tskit.NULL
             output[m] = nodes_map[mutations_node[m]]
             m += 1
+
+    while m < num_mutations:  # sites beyond the last edge
+        output[m] = nodes_map[mutations_node[m]]
+        m += 1
 
     return output
 
